@@ -8,7 +8,7 @@ CONSTANTS
   MaxCmds = 4
   MaxFaults = 1
   MaxNs = 1
-  MaxPerPool = 4
+  MaxPerPool = 7
   FOps = {"get", "sync", "begin", "setac", "init", "exec", "commit", "rollback", "ping"}
 INVARIANTS TypeOK C18_TxStatementOnTxMaster C18_OneConnPerSlice C18_EndReachesExactlyTx C18_ReleasedAfterEnd
   C19_NoLeak C19_NoDangling C19_NothingHeldOutsideTx C19_NoOpenTxInPool C19_EndClean
